@@ -66,7 +66,16 @@ class _SimFile(MemoryFile):
                 fs.store[self.path] = torn
             raise OSError(errno.ENOSPC, "injected: no space left on device (%s)" % self.path)
         fs.store[self.path] = self
-        self.modified = fs.clock.now()
+        m = fs.clock.now()
+        # never produce an exact (path, size, mtime) collision between two different writes of one path:
+        # no metadata checksum could tell them apart (DESIGN §3.3)
+        prev = type(fs).last_stamp.get(self.path)
+        size = self.getbuffer().nbytes
+        while prev is not None and prev == (size, m):
+            fs.clock.tick += fs.clock.resolution
+            m = fs.clock.now()
+        type(fs).last_stamp[self.path] = (size, m)
+        self.modified = m
 
 
 class SimFS(MemoryFileSystem):
@@ -83,6 +92,7 @@ class SimFS(MemoryFileSystem):
     writes = 0
     reads = 0
     faults_fired = []
+    last_stamp = {}
 
     @classmethod
     def _strip_protocol(cls, path):
@@ -110,6 +120,7 @@ class SimFS(MemoryFileSystem):
         cls.writes = 0
         cls.reads = 0
         cls.faults_fired = []
+        cls.last_stamp = {}
         MemoryFileSystem.store = cls.store
         MemoryFileSystem.pseudo_dirs = cls.pseudo_dirs
 
